@@ -132,6 +132,7 @@ pub fn run(cfg: &Cfg, seed: u64) -> (Arc<World>, Vec<Obs>, Vec<usize>) {
         });
         let wrapper = b.build();
         let (n, ticks) = (cfg.n, cfg.ticks);
+        let restart = seed % 5 == 0;
         // with an unbounded timeout the slow check (11 ms) is not cut off: observe after it
         let observe_after = if cfg.huge_timeout { TIMEOUT_US + 7000 } else { TIMEOUT_US + 1000 };
         let obs = o2.clone();
@@ -139,6 +140,10 @@ pub fn run(cfg: &Cfg, seed: u64) -> (Arc<World>, Vec<Obs>, Vec<usize>) {
         let a = sim.actor(0, move || {
             boxed(async move {
                 wrapper.start().await;
+                if restart {
+                    // starting again replaces the background task: still one check per interval
+                    wrapper.start().await;
+                }
                 for tick in 0..ticks {
                     // every check of this tick has finished (or timed out) by now
                     let at = INITIAL_US + tick as u64 * INTERVAL_US + observe_after;
@@ -183,6 +188,9 @@ pub fn scenario(sseed: u64, _tier: Tier) -> Report {
     }
     if obs.len() != cfg.ticks && rep.violations.is_empty() {
         rep.inconclusive = Some(format!("only {} of {} observations", obs.len(), cfg.ticks));
+    }
+    if calls.iter().any(|c| *c > cfg.ticks + 1) {
+        rep.violate("C18:checks-per-interval", format!("the checker was invoked {calls:?} times in {} intervals (one check per resource and interval)", cfg.ticks));
     }
     if calls.iter().any(|c| *c < cfg.ticks) && rep.violations.is_empty() {
         rep.inconclusive = Some(format!("checker was invoked {calls:?} times for {} ticks", cfg.ticks));
